@@ -42,6 +42,25 @@ BadMt  == {m[1] : m \in {m \in minted : m[2] = "mt" /\ SumLast(MtHeld(m[1])) + M
 StepShape(e) == e.act \o ":" \o (IF e.act \in {"Recv", "Ack"} THEN ClassShape(PkOf(e.pkt.src, e.pkt.dst, e.pkt.seq).ocls)
                                   ELSE IF e.act \in {"AppSend", "Mint", "Xfer"} THEN ClassShape(e.cls) ELSE "")
 
+\* C05, escrow clause: the units locked in escrow on chain x for (cls, id) equal the units of its vouchers one hop further
+\* along every path, plus the units in flight away from x, plus the units in flight back towards x (evaluated on the
+\* primed ledgers and the primed packet ghost)
+PathOfVoucher(v) == Tail(v)                         \* <<"mt", c1, .., ck, base>>
+UpChain(v) == LET p == PathOfVoucher(v) IN p[Len(p) - 2]
+UpClass(v) == LET p == PathOfVoucher(v) IN
+              IF Len(p) = 4 THEN <<"n", p[4]>> ELSE <<"v">> \o SubSeq(p, 1, Len(p) - 2) \o <<p[Len(p)]>>
+EscrowUnits(led2, x, cls, id) == MtBal(led2[x], cls, id, "esc")
+DownUnits(led2, pk2, x, cls, id) ==
+    FoldSet(LAMBDA y, acc : acc + MtSup(led2[y], <<"v">> \o AwayNewPath("mt", x, y, Segs(cls)), id), 0, Chains \ {x})
+  + FoldSet(LAMBDA q, acc : acc + q.amt, 0,
+            {q \in pk2 : q.k = "mt" /\ q.st \in {"flight", "err"} /\ q.oid = id /\
+                          ((q.s = x /\ q.away /\ q.ocls = cls) \/
+                           (q.d = x /\ ~q.away /\ Len(q.ocls) >= 5 /\ IBCClass(BackNewPath(Segs(q.ocls))) = cls))})
+EscrowCandidates(led2) ==
+     UNION {{<<x, b[1], b[2]>> : b \in {b \in led2[x].mt : b[3] = "esc"}} : x \in Chains}
+\cup UNION {{<<UpChain(z[1]), UpClass(z[1]), z[2]>> : z \in {z \in led2[y].sup : z[1][1] = "v" /\ Len(z[1]) >= 5 /\ z[3] > 0 /\ UpChain(z[1]) \in Chains}} : y \in Chains}
+BadEscrow(led2, pk2) == {t \in EscrowCandidates(led2) : EscrowUnits(led2, t[1], t[2], t[3]) # DownUnits(led2, pk2, t[1], t[2], t[3])}
+
 V_Apps(e, okR, c, L, L2, rec, pkt0) ==
   LET isPkt == e.act \in {"Recv", "Ack"}
       q     == IF isPkt THEN PkOf(e.pkt.src, e.pkt.dst, e.pkt.seq) ELSE PkOf("", "", 0)
@@ -89,6 +108,7 @@ V_Apps(e, okR, c, L, L2, rec, pkt0) ==
            If(Cardinality(ann) # 1, Lbl("C09", "packet_not_announced", "app"))
       \cup If(pkt0.seq # NsR(r, c, e.dst) \/ NsR(r2, c, e.dst) # NsR(r, c, e.dst) + 1, Lbl("C09", "sequence_not_advanced_by_one", "app"))
       \cup If(r2.cm # r.cm \cup {<<c, e.dst, pkt0.seq, pkt0.data>>}, Lbl("C09", "not_exactly_one_commitment", "app"))
+      \cup If((IF e.relay # "" THEN e.relay ELSE e.dst) \notin r.cl \/ e.dst = c, Lbl("C09", "invalid_send_accepted", "app"))
       \cup If(e.k = "nft" /\ NftOwner(L2, e.cls, e.id) \notin {"esc", ""}, Lbl("C09", "token_neither_locked_nor_burned", "nft"))
       \cup If(e.k = "nft" /\ NftOwner(L, e.cls, e.id) # e.u, Lbl("C09", "token_not_owned_by_sender", "nft"))
       \cup If(e.k = "mt" /\ MtBal(L2, e.cls, e.id, e.u) # MtBal(L, e.cls, e.id, e.u) - e.amt, Lbl("C09", "units_not_debited", "mt"))
@@ -144,6 +164,9 @@ ATraceStep ==
                                    v \in Violations(e, okR, rec, st2, pred) \cup V_Apps(e, okR, e.c, led[e.c], led2[e.c], rec, pkt0)}
                            \cup {[tr |-> rec.tr, i |-> rec.i, v |-> Lbl("C04", "asset_not_held_exactly_once",
                                      (IF Cardinality(NftHolders(a)') + Cardinality(Flying(a, "nft")') > 1 THEN "duplicated:" ELSE "lost:") \o StepShape(e))] : a \in BadNft' \ BadNft}
+                           \cup {[tr |-> rec.tr, i |-> rec.i, v |-> Lbl("C05", "escrow_differs_from_vouchers_and_in_flight",
+                                     (IF EscrowUnits(led2, t[1], t[2], t[3]) > DownUnits(led2, pk', t[1], t[2], t[3]) THEN "escrow_exceeds:" ELSE "escrow_short:") \o StepShape(e))] :
+                                   t \in BadEscrow(led2, pk') \ BadEscrow(led, pk)}
                            \cup {[tr |-> rec.tr, i |-> rec.i, v |-> Lbl("C05", "units_not_conserved",
                                      (IF SumLast(MtHeld(a)') + MtFlyingUnits(a)' > (CHOOSE m \in minted' : m[1] = a)[3] THEN "created:" ELSE "destroyed:") \o StepShape(e))] : a \in BadMt' \ BadMt}
              /\ div' = div \cup {[tr |-> rec.tr, i |-> rec.i, v |-> v] : v \in ADivergence(e, okR, rec, st2, led2, pred)}
